@@ -23,8 +23,9 @@ direct: griffe.load(pkg, allow_inspection=False) vs griffe.load(pkg, force_inspe
     kinds, shared labels, parameters, base class paths, docstrings, alias final targets at every nesting level, modulo the allowed
     differences encoded in compare_trees(); the bases of every class three ways (static, inspected, cls.__bases__); which statement binds a
     name next to wildcard imports (static vs imported module).  Anything else must satisfy a known-gap classifier confirmed by the model's
-    verdict (F4, F6, F8, F9, F10) or is a VIOLATION.
-    corpus/C17: the witnesses of the repaired defects F1 F2 F3 F5 F7, on which the two agents must now agree completely.
+    verdict (F4, F6, F8, F9, F10, F12) or is a VIOLATION.
+    corpus/C17: the witnesses of the repaired defects (F1 F2 F3 F5 F7, twin modules, built-in _x modules, wrapped class methods), on which
+    the two agents must now agree completely.
 """
 from __future__ import annotations
 
@@ -43,7 +44,7 @@ from pathlib import Path
 from harness.translate import c17_tables
 
 ID = "C17"
-LEVEL_TEXT = ("Theorems (35, all closed under the global context). Kinds: for each of the 24 definition forms the member the Inspector derives from "
+LEVEL_TEXT = ("Theorems (37, all closed under the global context). Kinds: for each of the 24 definition forms the member the Inspector derives from "
               "what CPython reports has the same Griffe kind and shared labels as the Visitor's -- stated both over the tabulated observations and "
               "over observations DERIVED from a small object semantics stated once (attribute access on a class/module, inspect.is*, callable, what "
               "each statement stores; C17_observations_derived proves the table is the derived one); the ladder always has a handler; the "
@@ -54,7 +55,9 @@ LEVEL_TEXT = ("Theorems (35, all closed under the global context). Kinds: for ea
               "Inspector's alias points (modulo F4); imported plain values are attributes (stated exception); `import a.b.c [as x]` gives the "
               "same alias on both sides unless it binds the module it is written in (F6, exact) (built-in `_x` modules and underscore twins included since the repairs). Wildcard imports: "
               "the names expand_wildcards brings are the names CPython's import * binds (every member list, every __all__), and for every "
-              "interleaving of definitions and wildcard imports the surviving binder is the same statement. Bases: for every class statement in "
+              "interleaving of definitions and wildcard imports the surviving binder is the same statement. Rebinding: for every list of imports, "
+              "definitions and assignments of one name, when the statements CPython skips are exactly the branch assignments the visitor "
+              "skips, the kept binding is the surviving one (F12 otherwise, e.g. TYPE_CHECKING import + else fallback). Bases: for every class statement in "
               "any nesting of class bodies with any number of written bases Name / Name[...] / root.attr[...], each well bound (defined in an "
               "enclosing scope, imported through a chain of any length, external, builtin), the resolved static base paths equal the "
               "Inspector's, which are CPython's __bases__ without object -- unless class creation rewrites the bases through __mro_entries__ "
@@ -81,7 +84,9 @@ RULE = ("seeded random importable packages (7-11 modules over 3 nesting levels, 
         "functions / classes, annotated names with and without value and with ClassVar, docstrings of random indentation shapes, "
         "absolute/relative/as-named imports of classes, functions, coroutines, modules and values incl. re-export chains, wildcard imports "
         "(one or two per module, sources with and without __all__, transitive), class-body imports, `import x.y`, self imports, imports of "
-        "built-in underscore modules, __all__, optional underscore twin modules, modules named like the stdlib / top-level module they import "
+        "built-in underscore modules, names re-bound in branches that are not taken (try-import/except fallback, `if sys.version_info`, on "
+        "imports, functions, classes, values) and TYPE_CHECKING-import/else-fallback, methods below functools.wraps decorators, __all__, "
+        "optional underscore twin modules, modules named like the stdlib / top-level module they import "
         "from, quoted annotations that do not resolve at runtime), loaded statically and dynamically and imported; a zoo of live objects for "
         "every ladder rung and every object constructor; 150+ small packages interleaving definitions and wildcard imports; exhaustive "
         "relative-import grid depth<=4 x level<=5; random docstring line lists; random dotted paths. non-trivial package = has at least one "
@@ -1211,14 +1216,6 @@ def classify(diff, gen, ctx, dyn_tree=None):
         src_meta = gen.meta.get(meta["source"], {})
         if src_meta.get("rebind") and (not have_model or ctx.model([["rebind", src_meta["rebind"]]])[0][2] == 1):
             return "C17-F12"
-    if what == "params" and meta.get("wrapped") and isinstance(form, list) and form[0] == "classm" and b == [] and gen is not None:
-        # F13: a class method over a functools.wraps decorator: getsignature(node.obj.__func__) raises on the unwrapped function, swallowed
-        if not have_model:
-            return "C17-F13"
-        args = abstract_arguments(ast.parse(f"def f({meta['sig']}): ...\n").body[0].args)
-        out = ctx.model([["params", args]])[0]
-        if out != ["bad-input"] and out[0] == ["ok", params_from_summary(a)]:
-            return "C17-F13"
     if isinstance(form, list) and form[0] in ("assigned", "annotated") and gen is not None:
         # F9: a name bound by assignment to a callable / class / descriptor; F10: an annotation without value, outside the
         # "instance attribute" exception.  Both verdicts and both members must be the model's.
@@ -1639,8 +1636,7 @@ def check_package(ctx, gen, root, st, dy, a, b):
                 ctx.observe("n_params", len(out[2]))
                 if sa is not None and sa["t"] == "function" and out[0] != ["ok", params_from_summary(sa["params"])]:
                     ctx.tie_failure("correspondence", "visitor_parameters(model) vs static Function.parameters", {"model": out[0], "impl": sa["params"]}, {"path": path, "sig": meta["sig"]})
-                f13 = meta.get("wrapped") and meta["form"][0] == "classm" and da is not None and da.get("params") == []    # known F13; the direct comparison reports it
-                if da is not None and da["t"] == "function" and not f13 and out[1] != params_from_summary(da["params"]):
+                if da is not None and da["t"] == "function" and out[1] != params_from_summary(da["params"]):
                     ctx.tie_failure("correspondence", "inspector_parameters(model) vs inspected Function.parameters", {"model": out[1], "impl": da["params"]}, {"path": path, "sig": meta["sig"]})
                 fn = parent.__dict__[name]
                 fn = fn.__func__ if isinstance(fn, (staticmethod, classmethod)) else fn
@@ -2102,7 +2098,6 @@ def replay_witnesses(ctx):
                       and dy["w9"].members["part"].is_alias and dy["w9"].members["part"].target_path == "functools.part",
             "C17-F10": "x" in st["w9"].members and "x" not in dy["w9"].members and "c" in st["w9.K"].members and "c" not in dy["w9.K"].members,
             "C17-F12": st["w12"].members["T"].is_alias and dy["w12"].members["T"].kind.value == "attribute",
-            "C17-F13": len(st["w12.C.cm"].parameters) == 3 and len(dy["w12.C.cm"].parameters) == 0,
             "C17-F8": ([base_path(st["gen.L"], x) for x in st["gen.L"].bases], [str(x) for x in dy["gen.L"].bases],
                        [base_path(st["gen.K"], x) for x in st["gen.K"].bases], [str(x) for x in dy["gen.K"].bases])
                       == (["typing.List"], ["builtins.list", "typing.Generic"], ["typing.Generic", f"{pkg}.gen.G"], [f"{pkg}.gen.G"]),
